@@ -205,12 +205,7 @@ def _run(sc, tape):
     clock = w.clock
     w.fs.readdir_salt = sc['salt']
 
-    class SimDateTime(real_dt.datetime):
-        @classmethod
-        def now(cls, tz=None):
-            return real_dt.datetime.fromtimestamp(clock.time())
-    w.extra_patches.append((times, 'datetime', types.SimpleNamespace(datetime=SimDateTime, timedelta=real_dt.timedelta,
-                                                                     date=real_dt.date)))
+    w.extra_patches.append((times, 'datetime', C.datetime_module(clock)))
     w.extra_patches.append((seeder, 'queue_class', SimQueue))
     w.extra_patches.append((seeder, 'Queue', SimQueueModule))
 
